@@ -26,7 +26,7 @@ input lines, in order — for every syntax and delimiter set, banners and macros
 not) included. -/
 theorem parse_texts (cfg : Cfg) (ls : List Str) (hi : cfg.ignoreBlank = false) :
     (parse cfg ls).texts = ls := by
-  rw [parse_eq_bootstrap, bootstrap, bootstrapFuel_noIgnore cfg hi, link_texts]
+  rw [parse_eq_bootstrap, bootstrap, bootstrapFuel_noIgnore cfg hi, link_texts_ll]
 
 /-- **One entry per line**: the parent list and the `blank_line_keep` list of the parsed tree
 have exactly one entry per text line (every configuration, `ignore_blank_lines` on or off).
